@@ -42,6 +42,9 @@ type embOuter struct {
 // a map whose key type is a named string type
 type namedKey string
 
+// a named string type as a value
+type namedString string
+
 type ptrStruct struct {
 	A int
 	P *int
@@ -126,6 +129,8 @@ func Universe() []UVal {
 		specU("[nil,1,nil]", SArr(SNil(), SInt(1), SNil())),
 		specU("[[1,2],[3]]", SArr(SArr(SInt(1), SInt(2)), SArr(SInt(3)))),
 		specU("[]string", withRep(SArr(SStr("b"), SStr("a"), SStr("B")), "typed")),
+		specU("[strs]", SArr(SStr("b"), SStr("a"), SStr("B"), SStr("a"))),
+		specU("{a:1,b:2}any", withRep(SMap("a", SInt(1), "b", SInt(2)), "anykey")),
 		specU("[]int", withRep(SArr(SInt(2), SInt(1), SInt(2)), "typed")),
 		specU("[mixed]", SArr(SInt(1), SStr("a"), SFloat(2.5), SBool(true), SNil(), SStr("1"))),
 		specU("[maps]", SArr(SMap("a", SInt(2)), SMap("b", SInt(1)), SMap("a", SNil()), SMap("a", SInt(1)))),
@@ -152,6 +157,10 @@ func Universe() []UVal {
 		rawU("*struct{embedded}", func() any { return &embOuter{embInner: &embInner{X: 7}, Y: 2} }),
 		rawU("map[named]any", func() any { return map[namedKey]any{"k": 1, "title": "t"} }),
 		rawU("[]map[named]any", func() any { return []any{map[namedKey]any{"k": 2}, map[namedKey]any{"k": 1}} }),
+		rawU("named-string", func() any { return namedString("en") }),
+		rawU("nil*Drop", func() any { var p *Drop; return p }),
+		rawU("[]map[any]any", func() any { return []any{map[any]any{"k": "b", 1: 2}, map[any]any{"k": "a"}} }),
+		rawU("map[any]any", func() any { return map[any]any{"x": 1, 2: "two", 2.5: []any{1}} }),
 		rawU("*time", func() any { t := time.Date(2024, 2, 29, 13, 14, 15, 0, time.FixedZone("X", 3600)); return &t }),
 		rawU("struct", func() any { return dataStruct{Title: "T", Count: 3, Tags: []string{"x", "y"}, Named: "nm", inner: 1} }),
 		rawU("*struct", func() any { return &dataStruct{Title: "P", Count: 4} }),
